@@ -29,8 +29,8 @@ fn eval_recursive(input: &str, is_eval: bool) -> Result<Cow<'_, str>, EvalexprEr
     for (i, character) in input.char_indices() {
         if character == '$'
             && i + 1 < input.len()
-            && input[i + 1..i + 2] == *"("
-            && (i == 0 || (input[i - 1..i] != *"$"))
+            && input.as_bytes()[i + 1] == b'('
+            && (i == 0 || input.as_bytes()[i - 1] != b'$')
         {
             if level == 0 {
                 start = i + 1;
